@@ -50,6 +50,31 @@ theorem inverted_normal_flips_signed_distance (P : Plane3 ℝ) (q : V3 ℝ) :
       = -GenRs.Plane3_signed_distance_to_point P q := by
   rw [C19T.Plane3_inverted_normal_eq, C19T.Plane3_signed_distance_eq, C19T.Plane3_signed_distance_eq]
   exact C03.plane_inverted_flips P q
+/-! ### the rows the weighted decomposition hands to the SVD (regenerated) -/
+
+/-- one row per point — `w_i (p_i − c)` — whatever the weights: a point of tiny or zero weight still has its row, so
+    the matrix has as many rows as the decomposition reports points -/
+theorem weighted_rows_one_per_point (pts : List (V3 ℝ)) (w : List ℝ) (c : V3 ℝ) (h : pts.length = w.length) :
+    (GenRs.svd_weighted_rows pts w c).length = pts.length := by
+  unfold GenRs.svd_weighted_rows
+  simp [h]
+
+/-- scaling every weight by the same factor scales every row by it (the SVD of `k·A` has the basis of `A` and `|k|`
+    times its singular values: the "unchanged by uniformly scaling all weights" clause, at the level of the rows) -/
+theorem weighted_rows_scale (pts : List (V3 ℝ)) (w : List ℝ) (c : V3 ℝ) (k : ℝ) :
+    GenRs.svd_weighted_rows pts (w.map (k * ·)) c = (GenRs.svd_weighted_rows pts w c).map (V3.smul k) := by
+  unfold GenRs.svd_weighted_rows
+  induction pts generalizing w with
+  | nil => simp
+  | cons p ps ih =>
+    cases w with
+    | nil => simp
+    | cons x xs =>
+      simp only [List.map_cons, List.zip_cons_cons, List.cons.injEq]
+      refine ⟨?_, ih xs⟩
+      simp only [V3.smul, V3.sub, V3.mk.injEq]
+      refine ⟨by ring, by ring, by ring⟩
+
 /-! ### `SvdBasis::rank` (the regenerated counting loop, for any number of singular values) -/
 
 theorem svd_rank_foldl (sv : List ℝ) (tol : ℝ) (acc : Nat) :
